@@ -136,7 +136,10 @@ def main(tier):
         yends = sorted(set(ch.ldn_of(y, 12, 22) + k for y in range(1995, 2036) for k in range(0, 21)))
         nsp = [x for x in specs(False, rng) if x[1] in ("wd", "mon") or (x[1] == "dom" and x[2] in (1, 15, 28, 29, 30, 31))]
         for nota in ("ywd", "yd", "ymcw"):
-            ndays = yends[:: 2 if quick else 1] + days[:: 9 if quick else 2]
+            # plus fixed days in the century years and at the ends of the 1901..2100 span (the weekday tables of these notations end there)
+            cent = [ch.ldn_of(y, m_, d_) for y in (1700, 1800, 1899, 1900, 1901, 2000, 2099, 2100, 2101, 2200, 2400, 3000)
+                    for m_, d_ in ((1, 1), (1, 4), (1, 8), (3, 1), (3, 2), (6, 15), (12, 26), (12, 31))]
+            ndays = yends[:: 2 if quick else 1] + days[:: 9 if quick else 2] + cent
             ninputs = [cc.fmt_row(nota, ch.row(l)) for l in ndays]
             ninp = "".join(x + "\n" for x in ninputs)
             for arg, kind, v, dr in (nsp if not quick else [x for x in nsp if x[1] == "wd"] + rng.sample([x for x in nsp if x[1] != "wd"], 8)):
